@@ -791,6 +791,13 @@ func noPanicRule(c *Ctx, rule string, rels []string, skipFile func(string) bool,
 				if arg, ok := boundsTable[key]; ok {
 					stats["table"]++
 					usedRows[key] = true
+					if g := rowGuards[key]; g != nil {
+						if gok, gwhy := g(in.Parent()); !gok {
+							r.Fail(rule, construct, line, "the argument of the reviewed row no longer holds ("+gwhy+"): a crafted input may panic here")
+							continue
+						}
+						arg += " [re-checked structurally on this run]"
+					}
 					r.OK(rule, construct, line, "reviewed: "+arg)
 					continue
 				}
@@ -968,4 +975,68 @@ func computeZonePre(p *core.Prog, reach map[*ssa.Function]bool) int {
 		n++
 	}
 	return n
+}
+
+// rowGuards: structural re-checks of the argument written next to a reviewed row (a row whose guard
+// fails is not accepted). Key as in boundsTable.
+//
+// readAUHeaders: "count is computed by the first loop with the same per-header bit widths the second loop
+// consumes" is checked as: the set of Decoder fields added to a counter equals the set of Decoder fields
+// subtracted from the remaining length (added after seeded change C08-r4m2, where the counting loop lost
+// IndexDeltaLength and dataLens[i] went out of range).
+var rowGuards = map[string]func(fn *ssa.Function) (bool, string){
+	"pkg/format/rtpmpeg4audio (*Decoder).readAUHeaders | t[t]": func(fn *ssa.Function) (bool, string) {
+		fieldOf := func(v ssa.Value) string {
+			u, ok := v.(*ssa.UnOp)
+			if !ok || u.Op != token.MUL {
+				return ""
+			}
+			fa, ok := u.X.(*ssa.FieldAddr)
+			if !ok || fa.X != ssa.Value(fn.Params[0]) {
+				return ""
+			}
+			if f := core.FieldOfAddr(fa); f != nil {
+				return f.Name()
+			}
+			return ""
+		}
+		added, subbed := map[string]bool{}, map[string]bool{}
+		for _, b := range fn.Blocks {
+			for _, in := range b.Instrs {
+				bo, ok := in.(*ssa.BinOp)
+				if !ok {
+					continue
+				}
+				switch bo.Op {
+				case token.ADD:
+					// sums of fields feed the same counter: a + (f1 + f2)
+					for _, side := range []ssa.Value{bo.X, bo.Y} {
+						if n := fieldOf(side); n != "" {
+							added[n] = true
+						}
+					}
+				case token.SUB:
+					if n := fieldOf(bo.Y); n != "" {
+						subbed[n] = true
+					}
+				}
+			}
+		}
+		var miss []string
+		for n := range subbed {
+			if !added[n] {
+				miss = append(miss, n+" is consumed by the parsing loop but not counted")
+			}
+		}
+		for n := range added {
+			if !subbed[n] {
+				miss = append(miss, n+" is counted but not consumed by the parsing loop")
+			}
+		}
+		sort.Strings(miss)
+		if len(added) == 0 || len(subbed) == 0 {
+			return false, "the counting loop / the consuming loop were not recognised"
+		}
+		return len(miss) == 0, strings.Join(miss, "; ")
+	},
 }
